@@ -18,10 +18,12 @@
 (*          per flag family in every mixture x chart defaults               *)
 (*   set    --set token strings over the documented grammar x base trees    *)
 (***************************************************************************)
-EXTENDS Values, ValuesSet, Json, SequencesExt
+EXTENDS ValuesProps, Json
 
 CONSTANTS Family,   \* "pair" | "sub2" | "sub3" | "flags" | "set"
-          Full      \* TRUE: leaves {scalar, null, list} at both depths; FALSE: lists only at depth 1
+          Full,     \* TRUE: leaves {scalar, null, list} at both depths; FALSE: lists only at depth 1
+          SetPairs, \* TRUE: also --set expressions with two assignments
+          Term      \* TRUE only in simulation configurations (see Next)
 
 ASSUME TLCSet(1, 0)
 
@@ -91,6 +93,53 @@ FlagF1 == SetToSeq({<<>>} \cup MapsOver(A, WF("s:f1")))
 FlagF2 == SetToSeq({<<>>} \cup MapsOver(A, WF("s:f2")))
 FlagD  == <<  <<>>, [x \in {"a"} |-> Mp([y \in AB |-> Sc("i:1")])], [x \in AB |-> Sc("i:1")] >>
 
+(* ----- the enumerated grammar ----------------------------------------------- *)
+\* key names as chunk sequences
+Names1 == << <<"a">>, <<"b">>, <<"a", EscDot, "b">> >>
+Names2 == << <<"a">>, <<"b">> >>
+Idx    == <<0, 1>>
+IdxTok(i) == "[" \o ToString(i) \o "]"
+
+\* paths: [toks, path]
+PathsOf ==
+  LET k1 == {[toks |-> Names1[n], path |-> <<PK(TxtOf(Names1[n]))>>] : n \in DOMAIN Names1}
+      addK(S) == {[toks |-> p.toks \o <<".">> \o Names2[n], path |-> Append(p.path, PK(TxtOf(Names2[n])))] : p \in S, n \in DOMAIN Names2}
+      addI(S) == {[toks |-> Append(p.toks, IdxTok(Idx[n])), path |-> Append(p.path, PI(Idx[n]))] : p \in S, n \in DOMAIN Idx}
+  IN k1 \cup addK(k1) \cup addI(k1) \cup addI(addK(k1)) \cup addK(addI(k1)) \cup addI(addI(k1))
+
+\* scalar literals as chunk sequences, lists of them
+Scalars == << <<"x">>, <<"1">>, <<"0">>, <<"007">>, <<"true">>, <<"False">>, <<"null">>, <<>>, <<"x", EscComma, "y">>,
+              <<"-3">>, <<"1.5">>, <<"a", EscDot, "b">> >>
+ValsOf ==
+  {[toks |-> Scalars[n], val |-> DocTyped(TxtOf(Scalars[n]))] : n \in DOMAIN Scalars}
+  \cup {[toks |-> <<"{">> \o Scalars[n] \o <<"}">>, val |-> Li(<<DocTyped(TxtOf(Scalars[n]))>>)] : n \in {1, 7}}
+  \cup {[toks |-> <<"{">> \o Scalars[n] \o <<",">> \o Scalars[m] \o <<"}">>,
+         val |-> Li(<<DocTyped(TxtOf(Scalars[n])), DocTyped(TxtOf(Scalars[m]))>>)] : n \in {1, 2}, m \in {5, 9}}
+
+Asg1 == {[toks |-> p.toks \o <<"=">> \o v.toks, asgs |-> <<[path |-> p.path, val |-> v.val]>>] : p \in PathsOf, v \in ValsOf}
+\* second assignments (a smaller set) appended after a comma
+Tail2 == {[toks |-> <<"a", "=", "y">>, asgs |-> <<[path |-> <<PK("a")>>, val |-> DocTyped("y")]>>],
+          [toks |-> <<"a", ".", "b", "=", "null">>, asgs |-> <<[path |-> <<PK("a"), PK("b")>>, val |-> Null]>>],
+          [toks |-> <<"a", "[1]", "=", "y">>, asgs |-> <<[path |-> <<PK("a"), PI(1)>>, val |-> DocTyped("y")]>>],
+          [toks |-> <<"b", ".", "a", "=", "2">>, asgs |-> <<[path |-> <<PK("b"), PK("a")>>, val |-> DocTyped("2")]>>]}
+\* a first assignment whose value is empty or a list cannot be followed by ",..." unambiguously
+\* in the documented grammar only when the value is a non-empty scalar or a list
+Asg2 == {[toks |-> x.toks \o <<",">> \o y.toks, asgs |-> x.asgs \o y.asgs] : x \in {z \in Asg1 : z.asgs[1].val # Sc("s:")}, y \in Tail2}
+
+WithText(S) == {[toks |-> e.toks, asgs |-> e.asgs, text |-> Concat(e.toks)] : e \in S}
+SetExprs == SetToSeq(WithText(IF SetPairs THEN Asg1 \cup Asg2 ELSE Asg1))
+
+\* base trees the expression is applied to (as the single -f file)
+SetBases == <<
+  <<>>,
+  [x \in {"a"} |-> Sc("i:1")],
+  [x \in {"a"} |-> Mp([y \in {"a", "b"} |-> Sc("s:old")])],
+  [x \in {"a", "b"} |-> Li(<<Sc("s:o0"), Sc("s:o1")>>)],
+  [x \in {"a"} |-> Li(<<Mp([y \in {"a"} |-> Sc("s:o")])>>)],
+  [x \in {"a"} |-> Li(<<Li(<<Sc("s:n0")>>)>>)],
+  [x \in {"a.b", "b"} |-> Mp([y \in {"b"} |-> Sc("s:keep")])],
+  [x \in {"a"} |-> Null] >>
+
 (* ----- stages ----------------------------------------------------------- *)
 StageSets ==
   CASE Family = "pair"  -> <<PairD, PairF>>
@@ -137,37 +186,6 @@ RECURSIVE IdStr(_)
 IdStr(p) == IF p = <<>> THEN "" ELSE "_" \o ToString(p[1]) \o IdStr(Tail(p))
 CaseId(p) == Family \o IdStr(p)
 
-(* ----- expectations for a case ------------------------------------------- *)
-\* user-level sources as trees, lowest precedence first
-SrcTree(s) == IF s.obj THEN s.v ELSE Lift(s.v, s.p)
-UserTrees(c) == [i \in DOMAIN c.usr |-> SrcTree(c.usr[i])]
-
-\* the code may refuse (error, no values produced) exactly when an assignment's path runs
-\* through something an earlier source set to a non-map (DESIGN C04 "Refusal-allowed")
-RECURSIVE RefusalFrom(_, _)
-RefusalFrom(usr, i) ==
-  IF i > Len(usr) THEN FALSE
-  ELSE LET cur == Exp([j \in 1..(i - 1) |-> SrcTree(usr[j])], TRUE)
-           s   == usr[i]
-           hit == ~s.obj /\ \E n \in 1..(Len(s.p) - 1) :
-                     LET q == Section(cur, SubSeq(s.p, 1, n)) IN IsSet(cur) /\ IsSet(q) /\ ~IsMap(q)
-       IN hit \/ RefusalFrom(usr, i + 1)
-RefusalAllowedUser(c) == RefusalFrom(c.usr, 1)
-
-\* a user source that sets a subchart's key to something that is not a map leaves nothing the
-\* subchart could be given: the code answers "type mismatch" (refusal) or drops the setting
-ChartPath(c, i) == ScopePath(c.charts, i)
-SubKeyClobbered(c) ==
-  \E i \in 2..Len(c.charts) : \E j \in DOMAIN c.usr :
-     LET q == Section(SrcTree(c.usr[j]), ChartPath(c, i)) IN IsSet(q) /\ ~IsMap(q)
-
-AllSources(c) == ChartSources(c.charts) \o UserTrees(c)
-
-\* OK-predicates on (normalised) observed / computed values
-UserOk(c, o)    == Ok(UserTrees(c), o, TRUE)
-RootOk(c, o)    == Ok(AllSources(c), Norm(o), FALSE)
-ScopeOk(c, i, o) == Ok([j \in DOMAIN AllSources(c) |-> Section(AllSources(c)[j], ChartPath(c, i))], Norm(o), FALSE)
-
 (* ----- code-shaped evaluation of a case ---------------------------------- *)
 \* strvals on the AST level: descend / create maps along the path (a non-map on the way is a Go
 \* type-assertion panic, recovered into an error), set the last key
@@ -195,24 +213,29 @@ CodeRoot(c) == LET m == CodeMerge(c) IN
                IF ~m.ok THEN m ELSE CoalesceValues(Nest(c.charts, 1), m.v)
 
 (* ----- the model check --------------------------------------------------- *)
-\* classes of difference between code-shaped and property-shaped, printed and counted, never a
-\* verdict: every case is replayed on the real code and judged there.
+\* Classes of difference between code-shaped and property-shaped, exported with the case and
+\* counted, never a verdict: every case is replayed on the real code and judged there.
+\*   L:...  the code-shaped result is NOT acceptable to the property-shaped oracle (a lead)
+\*   i:...  informational: acceptable, but not the strict (layered) reading / not judged
 Diffs(c) ==
   LET m == CodeMerge(c)
       r == CodeRoot(c) IN
   IF Family = "set"
   THEN LET e == SetExpected(c.files[1], c.expr) IN
-       IF ~m.ok THEN (IF e.conflict THEN {} ELSE {"set-refused"})
-       ELSE IF m.v # e.v THEN {"set-value"} ELSE {}
+       IF ~m.ok THEN (IF e.conflict THEN {"i:refusal-allowed"} ELSE {"L:set-refused"})
+       ELSE IF m.v # e.v THEN {"L:set-value"} ELSE {}
   ELSE
-  IF ~m.ok THEN (IF RefusalAllowedUser(c) THEN {} ELSE {"refused"})
-  ELSE (IF UserOk(c, Mp(m.v)) THEN {} ELSE {"user"})
-       \cup (IF Mp(m.v) # Exp(UserTrees(c), TRUE) THEN {"user-reading"} ELSE {})
-       \cup (IF ~r.ok THEN (IF SubKeyClobbered(c) THEN {} ELSE {"coalesce-refused"})
-             ELSE (IF RootOk(c, Mp(r.v)) THEN {} ELSE {"root"})
-                  \cup (IF Norm(Mp(r.v)) # Exp(AllSources(c), FALSE) THEN {"root-reading"} ELSE {})
-                  \cup UNION {IF ScopeOk(c, i, Section(Mp(r.v), ChartPath(c, i))) THEN {} ELSE {"scope"}
-                              : i \in 2..Len(c.charts)})
+  IF ~m.ok THEN (IF RefusalAllowedUser(c) THEN {"i:refusal-allowed"} ELSE {"L:refused"})
+  ELSE (IF UserOk(c, Mp(m.v)) THEN {} ELSE {"L:user"})
+       \cup (IF Mp(m.v) # Exp(UserTrees(c), TRUE) THEN {"i:user-reading"} ELSE {})
+       \cup (IF SubKeyClobbered(c) THEN {"i:subchart-key-clobbered"}
+             ELSE IF ~r.ok THEN {"L:coalesce-refused"}
+             ELSE (IF RootOk(c, Mp(r.v)) THEN {} ELSE {"L:root"})
+                  \cup (IF Norm(Mp(r.v)) # Exp(AllSources(c), FALSE) THEN {"i:root-reading"} ELSE {})
+                  \cup UNION {IF ScopeOk(c, i, Section(Mp(r.v), ChartPath(c, i))) THEN {} ELSE {"L:scope"}
+                              : i \in 2..Len(c.charts)}
+                  \cup UNION {IF NullRemovesKey(c, i, Section(Mp(r.v), ChartPath(c, i))) THEN {} ELSE {"L:null-key-stays"}
+                              : i \in 1..Len(c.charts)})
 
 (* ----- JSON ---------------------------------------------------------------- *)
 ChartsJ(c) == [i \in DOMAIN c.charts |-> [name |-> c.charts[i].name, vals |-> Mp(c.charts[i].vals)]]
@@ -220,7 +243,7 @@ CaseJ(p) ==
   LET c == CaseOf(p) IN
   [id |-> CaseId(p), fam |-> Family, charts |-> ChartsJ(c),
    files |-> [i \in DOMAIN c.files |-> Mp(c.files[i])], flags |-> c.flags,
-   usr |-> c.usr,
+   usr |-> c.usr, asgs |-> IF Family = "set" THEN c.expr.asgs ELSE <<>>,
    exp |-> IF Family = "set" THEN SetExpected(c.files[1], c.expr)
            ELSE [conflict |-> RefusalAllowedUser(c), v |-> <<>>],
    diffs |-> SetToSeq(Diffs(CaseOf(p)))]
@@ -228,8 +251,14 @@ CaseJ(p) ==
 (* ----- behaviour ----------------------------------------------------------- *)
 VARIABLE pick
 Init == pick = <<>>
-Next == /\ Len(pick) < NStages
-        /\ \E i \in 1..Len(StageSets[Len(pick) + 1]) : pick' = Append(pick, i)
+\* Term (simulation only): a complete pick gets one more step that appends 0; TLC evaluates a
+\* CONSTRAINT on every candidate successor while simulating, so exporting at the unique successor
+\* of a complete case writes exactly the cases of the behaviours drawn.
+Next == \/ /\ Term
+           /\ Len(pick) = NStages
+           /\ pick' = Append(pick, 0)
+        \/ /\ Len(pick) < NStages
+           /\ \E i \in 1..Len(StageSets[Len(pick) + 1]) : pick' = Append(pick, i)
 Spec == Init /\ [][Next]_pick
 
 Complete == Len(pick) = NStages
@@ -243,14 +272,14 @@ ExportBatch ==
 
 \* simulation runs (-workers 1): one file per complete case
 ExportOne ==
-  IF Complete
+  IF Len(pick) = NStages + 1
   THEN /\ TLCSet(1, TLCGet(1) + 1)
-       /\ ndJsonSerialize("gen/s" \o ToString(TLCGet(1)) \o ".ndjson", <<CaseJ(pick)>>)
+       /\ ndJsonSerialize("gen/s" \o ToString(TLCGet(1)) \o ".ndjson", <<CaseJ(SubSeq(pick, 1, NStages))>>)
   ELSE TRUE
 
 \* the model check proper: reported per case (and counted by the caller), TLC keeps going
 ModelReport ==
   IF Complete
-  THEN LET d == Diffs(CaseOf(pick)) IN IF d = {} THEN TRUE ELSE PrintT(<<"MODELDIFF", CaseId(pick), d>>)
+  THEN LET d == Diffs(CaseOf(pick)) IN IF \A x \in d : x \notin {"L:set-refused", "L:set-value", "L:refused", "L:user", "L:coalesce-refused", "L:root", "L:scope", "L:null-key-stays"} THEN TRUE ELSE PrintT(<<"MODELDIFF", CaseId(pick), d>>)
   ELSE TRUE
 =============================================================================
